@@ -279,8 +279,11 @@ crate::harness! {
         assert!(rec.asked == 1 && rec.n == if two { 2 } else { 1 } && rec.last == 2 && rec.y == y
             && rec.cur == cur.map(|x| x.into()), "C08: nondeterminism checker changed the arguments while recording");
         assert!(got1.map(|x| -> usize { x.into() }) == rec.ret, "C08: nondeterminism checker changed the answer while recording");
-        let d1 = c.next_u64();
-        assert!(d1 == draw_val && unsafe { SPY.draws } == 1, "C08: nondeterminism checker changed a draw while recording");
+        let mut d1 = 0;
+        if got1.is_some() {
+            d1 = c.next_u64();
+            assert!(d1 == draw_val && unsafe { SPY.draws } == 1, "C08: nondeterminism checker changed a draw while recording");
+        }
         // ---- replay execution: same calls, same arguments
         let e2 = c.new_execution();
         assert!(e2.is_some(), "C01: nondeterminism checker did not start its replay execution");
@@ -303,6 +306,22 @@ crate::harness! {
             assert!(e3.is_some() && unsafe { SPY.execs } == 2);
             std::mem::forget(e3);
             kani::cover!(two, "two tasks offered");
+        }
+        if got1.is_none() {
+            // the inner scheduler stopped the recorded execution at its first decision: the replay execution
+            // makes the same call, must get the same answer, and must not be rejected
+            let got2 = if two {
+                let r: [&Task; 2] = [&t0, &t2];
+                c.next_task(&r, cur, y)
+            } else {
+                let r: [&Task; 1] = [&t2];
+                c.next_task(&r, cur, y)
+            };
+            assert!(got2.is_none(), "C01/C08: nondeterminism checker replays a different decision");
+            assert!(unsafe { SPY.asked } == 1, "C01: replay consulted the inner scheduler");
+            let e3 = c.new_execution();
+            assert!(e3.is_some() && unsafe { SPY.execs } == 2);
+            std::mem::forget(e3);
         }
         kani::cover!(got1.is_none(), "recording stopped by the inner scheduler");
         std::mem::forget(c);
@@ -478,5 +497,37 @@ crate::harness! {
         kani::cover!(want == 1, "recorded task 1 missing from the offered list");
         std::mem::forget(r);
         std::mem::forget((t0, t1, t2));
+    }
+}
+
+
+// ---- C13: DFS iteration budget on a body without scheduling choices -------------------------------------------
+
+crate::harness! {
+    #[kani::unwind(6)]
+    fn c13_budget_dfs_no_choices() {
+        use shuttle_schedulers::DfsScheduler;
+        // a body whose executions make no scheduling decision at all: exactly one schedule exists
+        let bounded: bool = kani::any();
+        let k: usize = kani::any();
+        kani::assume(k <= 3);
+        let mut s = DfsScheduler::new(if bounded { Some(k) } else { None }, false);
+        let mut got = 0usize;
+        let mut ended = false;
+        crate::unroll!(4, {
+            let e = s.new_execution();
+            if e.is_some() {
+                assert!(!ended, "C13: DFS offered an execution after it had ended the run");
+                got += 1;
+            } else {
+                ended = true;
+            }
+            std::mem::forget(e);
+        });
+        let want = if bounded && k == 0 { 0 } else { 1 };
+        assert!(got == want && ended, "C13/C09: DFS does not run exactly min(budget, number of schedules) executions");
+        kani::cover!(bounded && k == 0, "zero budget");
+        kani::cover!(!bounded, "unbounded");
+        std::mem::forget(s);
     }
 }
